@@ -73,6 +73,9 @@ Clauses(o, n, e) == <<
     \* the PIN in use (what get_pin() answers when the bring-up ends) after a change that did not go through
     <<"FailedChangeTouchedPinInUse", (e.k = "end" /\ e.outcome # "crash" /\ e.mem # NoPin /\ (n.failed \/ n.fsfail))
                                         => e.mem = n.loaded>>,
+    \* the PIN a lifetime works with is the one the file holds (the default only when there is no file)
+    <<"LoadedPinNotTheFilesPin", (e.k = "load") => (IF PinOf(e.file) = NoPin THEN e.ok = "f"
+                                                   ELSE (e.ok = "t" /\ e.pin = PinOf(e.file)))>>,
     <<"ServedAfterChangeAttempt", (e.k = "end" /\ e.outcome = "serve") => ~n.attempted>>,
     <<"NewPinWithoutUnlock", TRUE>>,
     <<"Recoverable", RecoverableP(e.file, e.dev) \/ InWindow(n, e)>> >>
